@@ -50,6 +50,12 @@ def vcore_check(sub, level="exploration", extra_steps=None):
         return res
 
     def replay(ctx, rp):
+        if rp["argv"] and rp["argv"][0] == "fuzz-artifact":
+            binary = fuzz_build(ctx)
+            e = ctx["env_base"]()
+            e["VERIF_FOCUS"] = rp["argv"][1]
+            rc, so, se, secs = ctx["run"]([binary, rp["argv"][2]], timeout=QUICK_TIMEOUT, env=e)
+            return (1 if rc != 0 else 0), so, se, secs
         cmd = [_bin(ctx, rp.get("binary") or "vcore")] + rp["argv"] + ["--tier", ctx["tier"], "--replay-mode"]
         rc, so, se, secs = ctx["run"](cmd, timeout=QUICK_TIMEOUT)
         try:
@@ -210,6 +216,83 @@ def asan_layer(ctx, jobs, pid=None, workers=16):
     return results + [lr]
 
 
+# ---------------------------------------------------------------------- coverage-guided fuzzing layer (libFuzzer + ASan)
+
+def fuzz_build(ctx):
+    e = ctx["env_base"]()
+    e["RUSTFLAGS"] = "--cfg ancwrd1_ipp_rs_verif"
+    cwd = os.path.join(ctx["harness"], "vcore")
+    rc, so, se, secs = ctx["run"](["cargo", "+nightly", "fuzz", "build"], timeout=3600, cwd=cwd, env=e)
+    if rc != 0:
+        raise ctx["Inconclusive"]("cargo fuzz build failed:\n" + "\n".join(se.splitlines()[-15:]))
+    ctx["log"](f"[build] fuzz target ok in {secs:.1f}s")
+    return os.path.join(cwd, "fuzz", "target", "x86_64-unknown-linux-gnu", "release", "mon")
+
+
+def fuzz_layer(ctx, focus, seconds, instances=4):
+    """libFuzzer (ASan-instrumented) mutates byte strings that drive the harness generators (or are the hostile input itself);
+    the property's own per-case monitors judge every execution; a violation aborts the run and leaves the input as artifact"""
+    import re
+    import shutil
+    binary = fuzz_build(ctx)
+    pid = focus.upper()
+    base = os.path.join(ctx["harness"], "vcore", "fuzz")
+    seed_corpus = os.path.join(base, "seed_corpus", focus)  # committed, minimised
+    corpus = os.path.join(ctx["work"], "fuzz_corpus", focus)
+    os.makedirs(corpus, exist_ok=True)
+    art = os.path.join(ctx["work"], "fuzz_artifacts", focus)
+    shutil.rmtree(art, ignore_errors=True)
+    os.makedirs(art, exist_ok=True)
+    def one(i):
+        e = ctx["env_base"]()
+        e["VERIF_FOCUS"] = focus
+        e["ASAN_OPTIONS"] = "detect_leaks=0:abort_on_error=1"
+        cmd = [binary, corpus] + ([seed_corpus] if os.path.isdir(seed_corpus) else []) + [
+            f"-max_total_time={seconds}", "-timeout=30", "-rss_limit_mb=6144", "-len_control=0", "-max_len=4096",
+            f"-seed={ctx['seed'] * 1000 + i + 1}", f"-artifact_prefix={art}/i{i}-", "-print_final_stats=1"]
+        return ctx["run"](cmd, timeout=seconds + 600, env=e)
+    outs = _pool(list(range(instances)), one, workers=instances)
+    reports, inconcl, execs, cov = [], [], 0, 0
+    for i, (rc, so, se, secs) in enumerate(outs):
+        m = re.search(r"stat::number_of_executed_units:\s*(\d+)", se)
+        execs += int(m.group(1)) if m else 0
+        for c in re.findall(r"cov: (\d+)", se)[-1:]:
+            cov = max(cov, int(c))
+        if rc == 0:
+            continue
+        v = re.search(r"VERIF-FUZZ-VIOLATION (\S+) :: (.*)", se)
+        arts = sorted(os.listdir(art))
+        mine = [a for a in arts if a.startswith(f"i{i}-")]
+        artifact = os.path.join(art, mine[0]) if mine else ""
+        if v:
+            reports.append({"signature": v.group(1), "detail": f"[found by the coverage-guided layer; input artifact {artifact}] " + v.group(2)[:3000],
+                            "replay": ["fuzz-artifact", focus, artifact], "binary": "fuzz:mon"})
+        elif "ERROR: AddressSanitizer" in se:
+            reports.append(_san_report(pid, "asan-fuzz", ["fuzz", focus, artifact], se))
+        elif "ERROR: libFuzzer: timeout" in se:
+            inconcl.append(f"libFuzzer: one execution exceeded 30 s (artifact {artifact})")
+        elif "ERROR: libFuzzer: out-of-memory" in se:
+            inconcl.append(f"libFuzzer: rss limit exceeded (artifact {artifact})")
+        elif "deadly signal" in se or "panicked" in se:
+            reports.append({"signature": f"{pid}:fuzz-crash", "detail": "the fuzz target crashed outside a monitor:\n" + "\n".join(se.splitlines()[-20:]),
+                            "replay": ["fuzz-artifact", focus, artifact], "binary": "fuzz:mon"})
+        else:
+            inconcl.append(f"fuzz instance {i} ended abnormally (rc={rc}): {se[-300:]}")
+    # keep witnesses where the driver's replay can find them
+    for r in reports:
+        a = r["replay"][2] if len(r["replay"]) > 2 else ""
+        if a and os.path.exists(a):
+            dst = os.path.join(ctx["verif"], "replays", pid)
+            os.makedirs(dst, exist_ok=True)
+            shutil.copy(a, os.path.join(dst, "fuzz-" + os.path.basename(a)))
+            r["replay"][2] = os.path.join(dst, "fuzz-" + os.path.basename(a))
+    lr = _layer_result(ctx, "libFuzzer + AddressSanitizer (cargo fuzz), byte-driven generators, property monitors as the crash oracle", instances, execs, reports,
+                       f"{instances} instances x {seconds} s, {execs} executions, {cov} coverage edges reached, corpus {len(os.listdir(corpus))} inputs")
+    lr["coverage"]["evaluations"] = 0
+    lr["inconclusive"] = inconcl
+    return lr
+
+
 def san_jobs(focus, shards, budget):
     return [["san", "--focus", focus, "--shard", str(i), "--nshards", str(shards), "--budget", str(budget)] for i in range(shards)]
 
@@ -221,6 +304,8 @@ def with_sanitizers(focus):
             return _empty_result(ctx)
         res = miri_layer(ctx, san_jobs(focus, 16, 12))
         res += asan_layer(ctx, san_jobs(focus, 16, 4000))
+        if focus in ("c01", "c03", "c04", "c05", "c06", "c19"):
+            res.append(fuzz_layer(ctx, focus, int(os.environ.get("VERIF_FUZZ_SECONDS", "600")), instances=8))
         return res
     return step
 
@@ -351,6 +436,7 @@ def c02_steps(ctx):
                 for fam in C02_FAMILIES:
                     aj += [["c02w", "--family", fam, "--shard", str(i), "--nshards", "16"] for i in range(16)]
                 layer_out.extend(asan_layer(ctx, aj, pid="C02"))
+                layer_out.append(fuzz_layer(ctx, "c02", int(os.environ.get("VERIF_FUZZ_SECONDS", "600")), instances=8))
             else:
                 seed = ctx["seed"]
                 # odd shard counts so that consecutive picks alternate between the framed / truncated halves of the grid
@@ -682,7 +768,7 @@ CHECKS = {
     "C04": vcore_check("c04", extra_steps=[with_sanitizers("c04")]),
     "C05": vcore_check("c05", extra_steps=[with_sanitizers("c05")]),
     "C06": vcore_check("c06", extra_steps=[with_sanitizers("c06")]),
-    "C07": vcore_check("c07", level="fault_enumeration"),
+    "C07": vcore_check("c07", level="fault_enumeration", extra_steps=[lambda ctx: fuzz_layer(ctx, "c07", int(os.environ.get("VERIF_FUZZ_SECONDS", "600")), instances=8) if ctx["tier"] == "thorough" else _empty_result(ctx)]),
     "C08": vcore_check("c08", extra_steps=[with_sanitizers("c08")]),
     "C09": vcore_check("c09"),
     "C10": vcore_check("c10"),
